@@ -51,6 +51,8 @@ def mesh_configs(quick):
     c += [dict(kind="Lhole", mel=0.9, smooth=0)]
     # contact pads that reach well into the film (centres of interior edges lie inside the terminal polygons)
     c += [dict(kind="bar_thick", mel=0.5, smooth=0)]
+    # holes whose polygons carry mesh = False (one of them because it has been a terminal elsewhere)
+    c += [dict(kind="hole_from_terminal", mel=0.9, smooth=0)]
     # a film stated in METRES (coordinates ~1e-6) whose hole outline is sampled every 0.2 nm: every vertex of the outline is a
     # boundary site, the mesh tiles film minus hole
     c += [dict(kind="dense_hole", mel=1.2e-6, smooth=0, units="m", scale=1e-6, light=True)]
